@@ -55,6 +55,13 @@ func vtree(shape int) Files {
 		vassume(e != b)
 		vput(f, d+"/"+e+"/"+a, data())
 		vput(f, d+"/"+b, data())
+	case 8:
+		// a directory and a sibling file whose name extends the directory's name
+		d, a := vletter(), vletter()
+		x := vsym_byte()
+		vassume(x >= 0x20 && x < 0x7f && x != '/')
+		vput(f, d+"/"+a, data())
+		vput(f, d+string([]byte{x}), data())
 	case 7:
 		d, a, e, b, c := vletter(), vletter(), vletter(), vletter(), vletter()
 		vassume(d != e && d != c && e != c)
@@ -183,6 +190,7 @@ func vc23_files(shape int) {
 		vassert(file.Close() == nil, "close")
 		_, err = file.Read(buf)
 		vassert(err != nil && err != io.EOF, "read-after-close-fails")
+		vassert(st.Name() == vbase(name) && st.Size() == int64(len(data)) && !st.IsDir(), "file-info-unchanged-by-read-and-close")
 	}
 	// directories
 	for _, dir := range vdirs(f) {
@@ -263,6 +271,8 @@ func vc23_paging(shape int) {
 }
 
 func vh_c23_files_q()   { vc23_files(vsym_choice(5)) }
+func vh_c23_prefix_q()  { vc23_files(8) }
+func vh_c23_prefixp_q() { vc23_paging(8) }
 func vh_c23_paging_q()  { vc23_paging(1 + vsym_choice(4)) }
 func vh_c23_unknown_q() { vc23_unknown(vsym_choice(5)) }
 func vh_c23_files_t()   { vc23_files(5 + vsym_choice(3)) }
